@@ -360,6 +360,9 @@ func (r *resolver) applyDeviation(y *Module, d *Deviation) error {
 		}
 	}
 	if d.Replace != nil {
+		if d.Replace.dtype != nil {
+			hasType.setType(d.Replace.dtype)
+		}
 		if d.Replace.configPtr != nil {
 			if !hasDets.IsConfigSet() {
 				return fmt.Errorf("config not set on %s", d.Ident())
@@ -517,6 +520,7 @@ func (d *Deviation) checkTarget(target Definition) error {
 		check(x.minElementsPtr != nil, hasListDets, "min-elements")
 		check(x.units != "", hasType, "units")
 		check(x.HasDefault(), hasType, "default")
+		check(x.dtype != nil, hasType, "type")
 	}
 	if x := d.Delete; x != nil {
 		check(len(x.musts) > 0, hasMusts, "must")
